@@ -188,7 +188,7 @@ def run_job(spec):
                 continue
             # reachability twin: the path condition (incl. harness assumptions) must be satisfiable
             try:
-                model0 = ctx.get_model()
+                model0 = ctx.get_model(exact=True)
             except core.Vacuous:
                 res['vacuous_paths'] += 1
                 continue
@@ -215,7 +215,6 @@ def run_job(spec):
             # --- witness differential (also shows the path is reachable) -----------------
             if po.witness is not None and (res['witnesses'] < spec.get('max_witness', 40)):
                 try:
-                    model0 = ctx.get_model()
                     w = po.witness(model0)
                     res['witnesses'] += 1
                     exp = jsonable(ev(model0, po.sym_out))
@@ -310,6 +309,10 @@ def run_property(prop, jobs, meta, tier, nproc=16):
     if seed:
         import random
         random.Random(seed).shuffle(jobs)
+    for mname in sorted({j['module'] for j in jobs}):
+        m = __import__(mname, fromlist=['x'])
+        if hasattr(m, 'preload'):
+            m.preload()      # import /repo modules once, before forking the workers
     ctxm = mp.get_context('fork')
     results = []
     with ctxm.Pool(min(nproc, max(1, len(jobs))), maxtasksperchild=4) as pool:
